@@ -26,7 +26,9 @@ func init() {
 		"errors.Join keeps every non-nil argument", "a Go select picks only ready arms")
 	register("C06", &core.Rule{ID: "C06.1", Title: "response channel exists iff early_return is off", Mod: core.ModCBP, Floor: 2, Run: c06_1})
 	register("C06", &core.Rule{ID: "C06.2", Title: "enqueue outcomes", Mod: core.ModCBP, Floor: 3, Run: c06_2})
+	register("C11", &core.Rule{ID: "C11.10", Title: "a request is reported accepted (nil) only after it was queued: what Consume acknowledges is what Shutdown drains", Mod: core.ModCBP, Floor: 3, Run: c06_2})
 	register("C06", &core.Rule{ID: "C06.3", Title: "every contributor is sent the export result with its own count", Mod: core.ModCBP, Floor: 4, Run: c06_3})
+	register("C11", &core.Rule{ID: "C11.9", Title: "no caller blocks for ever: every contributor is sent the export result, and the reply is given up only when the caller's own context is done", Mod: core.ModCBP, Floor: 4, Run: c06_3})
 	register("C06", &core.Rule{ID: "C06.4", Title: "apportioning of a sent batch to the pending callers", Mod: core.ModCBP, Floor: 4, Run: c06_4})
 	register("C06", &core.Rule{ID: "C06.5", Title: "waiter countdown and error join", Mod: core.ModCBP, Floor: 4, Run: c06_5})
 	register("C06", &core.Rule{ID: "C06.6", Title: "counted error unwraps to the export error", Mod: core.ModCBP, Floor: 1, Run: c06_6})
@@ -461,6 +463,35 @@ func c06_3(c *core.Ctx, p *core.Prog) {
 		c.Check(header != nil && stops == "", "respond|continues", pos, core.FuncName(lf),
 			"after each waiter (answered or departed) the loop goes on to the next one",
 			"the reply loop is left on the "+stops+" arm of one waiter: the waiters behind it in the same batch are never told the outcome of their items although the export has finished (their Consume blocks until their own context ends)")
+	}
+	// the only way round the send is the waiter itself having left: every receive arm of the reply select is
+	// Done() of the context of the very contributor whose channel the send arm uses
+	{
+		var others []string
+		for _, st := range sel.States {
+			if st.Dir != types.RecvOnly {
+				if st != send {
+					others = append(others, "a second send arm")
+				}
+				continue
+			}
+			okDone := false
+			if dc, ok := core.Strip(st.Chan).(*ssa.Call); ok && dc.Call.IsInvoke() && dc.Call.Method.Name() == "Done" && isCtx(dc.Call.Value.Type()) {
+				cp, sp := core.AccessPath(dc.Call.Value), core.AccessPath(send.Chan)
+				if cp != "" && sp != "" && elemPrefix(cp) == elemPrefix(sp) {
+					okDone = true
+				}
+			}
+			if !okDone {
+				lbl := core.AccessPath(st.Chan)
+				if lbl == "" {
+					lbl = st.Chan.Name()
+				}
+				others = append(others, "a receive on "+lbl)
+			}
+		}
+		c.Check(len(others) == 0, "respond|ways-out", pos, core.FuncName(sel.Parent()), "the reply is given up only when the waiter's own context is done",
+			"the reply select has "+strings.Join(others, ", ")+" besides the send and the waiter's own Done(): once that arm is ready (a channel closed at shutdown is ready for ever) select picks it at random, the outcome is dropped and never re-sent, and a caller whose context does not end blocks in Consume for ever")
 	}
 	if !sel.Blocking {
 		c.Viol("respond|blocking", pos, core.FuncName(fn), "the response is sent with a non-blocking select: a waiter that is not yet receiving (or whose buffer holds an earlier response) loses this response and never finishes its countdown")
